@@ -11,6 +11,7 @@ def run(ck):
     ck.out_of_scope += ['serde / serde_yaml generated and library code', 'TLS file loading', '"accepted configuration runs" beyond: hashBy key expression present, members defined, no member cycle through <= 2 balancers',
                         '--test vs runtime agreement']
     loaders.run_all(ck)
+    loaders.spec_configured_address(ck)
     loadbalance.spec_lb_verify(ck)
     loadbalance.spec_lb_init(ck)
     loadbalance.spec_lb_member_graph(ck)
